@@ -1,7 +1,7 @@
 //! File-level generators (`full` profile): pragmas, several definitions, main component.
 
 use super::ast::*;
-use super::prog::{gen_def, OpsLevel, Profile};
+use super::prog::{gen_def, OpsLevel, Profile, TemplateSig};
 use crate::engine::Tape;
 use crate::field;
 
@@ -22,6 +22,26 @@ pub fn template_profile() -> Profile {
     p.max_stmts = 8;
     p.max_depth = 2;
     p.nested_signal_assign = false;
+    // Instantiations of the Circomlib names the analysis passes look for, with every small arity
+    // (the tool has no definition to check the arity against), besides templates of the same file.
+    p.components = true;
+    for (name, inputs, outputs) in [
+        ("Num2Bits", vec!["in"], vec!["out"]),
+        ("Bits2Num", vec!["in"], vec!["out"]),
+        ("LessThan", vec!["in"], vec!["out"]),
+        ("Num2Bits_strict", vec!["in"], vec!["out"]),
+        ("Sign", vec!["in"], vec!["sign"]),
+        ("AliasCheck", vec!["in"], vec![]),
+    ] {
+        for params in 0..3 {
+            p.templates.push(TemplateSig {
+                name: name.to_string(),
+                params,
+                inputs: inputs.iter().map(|s| s.to_string()).collect(),
+                outputs: outputs.iter().map(|s| s.to_string()).collect(),
+            });
+        }
+    }
     p
 }
 
@@ -38,14 +58,20 @@ pub fn file_with(t: &mut Tape, ids: &mut Ids, ndefs: usize, pragma: bool) -> Fil
         f.version = Some((2, [0u64, 1][t.below(2)], t.below(5) as u64));
     }
     let mut helpers: Vec<(String, usize)> = Vec::new();
+    let mut own_templates: Vec<TemplateSig> = Vec::new();
     for i in 0..ndefs {
         let template = t.chance(170);
         let mut p = if template { template_profile() } else { function_profile() };
         p.helpers = helpers.clone();
+        if template {
+            p.templates.extend(own_templates.iter().cloned());
+        }
         let name = if template { format!("T{i}") } else { format!("f{i}") };
         let d = gen_def(t, &p, ids, &name);
         if !template {
             helpers.push((name.clone(), d.params.len()));
+        } else if let Some(sig) = super::proj::template_sig(&d) {
+            own_templates.push(sig);
         }
         f.defs.push(d);
     }
